@@ -21,6 +21,7 @@ import (
 	"encoding/json"
 	"errors"
 	"fmt"
+	"strconv"
 	"strings"
 	"testing"
 	"time"
@@ -365,44 +366,86 @@ func (s *c33Sys) check(q *c33Query) (what string, dev string) {
 	return what, dev
 }
 
-func c33Replay(t *testing.T) {
-	n := 0
-	for i, raw := range vIn() {
-		var b c33Beh
-		if err := json.Unmarshal(raw, &b); err != nil {
-			t.Fatalf("behaviour %d: %v", i, err)
-		}
-		res := M{"i": i, "ok": true}
-		s, err := c33Build(&b.Tree, b.Fan, b.Kpool)
-		if err != nil {
-			res = M{"i": i, "ok": false, "step": 0, "what": "building the DAG: " + err.Error()}
-		} else {
-			// one reported deviation per tree: the entry-less HAMT finding first (rarer), else the ResolvePath one
-			devs := map[string][2]interface{}{}
-			bad := false
-			for k := range b.Queries {
-				what, dev := s.check(&b.Queries[k])
-				if what != "" && dev == "" {
-					res = M{"i": i, "ok": false, "step": k + 1, "what": what}
-					bad = true
-					break
-				}
-				if _, seen := devs[dev]; dev != "" && !seen {
-					devs[dev] = [2]interface{}{what, k + 1}
-				}
-			}
-			if !bad {
-				for _, d := range []string{c33DevPath, c33DevEmpty} {
-					if v, ok := devs[d]; ok {
-						res = M{"i": i, "ok": false, "step": v[1], "what": v[0], "dev": d}
-					}
-				}
-			}
-		}
-		vEmit(res)
-		n++
+// c33ReplayOne builds one tree and checks all its queries.
+func c33ReplayOne(i int, raw json.RawMessage) M {
+	var b c33Beh
+	if err := json.Unmarshal(raw, &b); err != nil {
+		return M{"i": i, "ok": false, "step": 0, "what": "harness: cannot parse behaviour: " + err.Error()}
 	}
-	vEmit(M{"summary": true, "n": n})
+	s, err := c33Build(&b.Tree, b.Fan, b.Kpool)
+	if err != nil {
+		return M{"i": i, "ok": false, "step": 0, "what": "building the DAG: " + err.Error()}
+	}
+	// one reported deviation per tree: the entry-less HAMT finding first (rarer), else the ResolvePath one
+	devs := map[string][2]interface{}{}
+	for k := range b.Queries {
+		what, dev := s.check(&b.Queries[k])
+		if what != "" && dev == "" {
+			return M{"i": i, "ok": false, "step": k + 1, "what": what}
+		}
+		if _, seen := devs[dev]; dev != "" && !seen {
+			devs[dev] = [2]interface{}{what, k + 1}
+		}
+	}
+	res := M{"i": i, "ok": true}
+	for _, d := range []string{c33DevPath, c33DevEmpty} {
+		if v, ok := devs[d]; ok {
+			res = M{"i": i, "ok": false, "step": v[1], "what": v[0], "dev": d}
+		}
+	}
+	return res
+}
+
+const c33ResTag = "C33RES "
+
+// The replay runs in a child process: a defect in the HAMT code can overflow the stack or loop
+// while a tree is built, which is fatal in Go.  The child prints one result line per tree; when
+// it dies, the tree after the last reported one is recorded as crashed and a new child continues.
+func c33ReplayChild(payload string) {
+	start, _ := strconv.Atoi(payload)
+	for i, raw := range vIn() {
+		if i < start {
+			continue
+		}
+		b, _ := json.Marshal(c33ReplayOne(i, raw))
+		fmt.Println(c33ResTag + string(b))
+	}
+}
+
+func c33Replay(t *testing.T) {
+	if payload, ok := vChildPayload(); ok {
+		c33ReplayChild(payload)
+		return
+	}
+	total := len(vIn())
+	next, crashes := 0, 0
+	for next < total {
+		if crashes >= 10 {
+			vEmit(M{"i": next, "ok": false, "step": 0, "what": "not executed: 10 earlier trees crashed the real code"})
+			next++
+			continue
+		}
+		out, outcome := vChild("TestVerifC33", strconv.Itoa(next), 40*time.Minute)
+		tail := ""
+		for _, line := range strings.Split(out, "\n") {
+			if strings.HasPrefix(line, c33ResTag) {
+				var r M
+				if json.Unmarshal([]byte(line[len(c33ResTag):]), &r) == nil {
+					vEmit(r)
+					next++
+				}
+			} else if len(tail) < 600 && strings.TrimSpace(line) != "" && !strings.HasPrefix(line, "=== ") {
+				tail += strings.TrimSpace(line) + " | "
+			}
+		}
+		if next < total {
+			crashes++
+			vEmit(M{"i": next, "ok": false, "step": 0,
+				"what": "the real code did not survive this tree (child " + outcome + "): " + tail})
+			next++
+		}
+	}
+	vEmit(M{"summary": true, "n": total})
 }
 
 // ---------------------------------------------------------------- record
